@@ -4325,3 +4325,20 @@ Proof.
   - unfold trace. rewrite <- in_rev. exact Hr.
   - unfold trace. rewrite cb_ids_rev'. exact Hn.
 Qed.
+
+(* ------------------------------------------------------------------ *)
+(* a refused uv_tcp_close_reset changes nothing                        *)
+(* ------------------------------------------------------------------ *)
+Theorem close_reset_refused_is_noop s :
+  closing s = false -> shutreq s = true ->
+  same_stream s (api_close_reset s) /\ tr (api_close_reset s) = EReset UV_EINVAL :: tr s /\
+  next_id (api_close_reset s) = next_id s.
+Proof.
+  intros Hc Hs. unfold api_close_reset. rewrite Hc, Hs. unfold same_stream. repeat split.
+Qed.
+
+(* ... and an accepted one is uv_close *)
+Theorem close_reset_accepted_is_close s :
+  closing s = false -> shutreq s = false ->
+  api_close_reset s = api_close (ev (EReset 0%Z) s).
+Proof. intros Hc Hs. unfold api_close_reset. rewrite Hc, Hs. reflexivity. Qed.
